@@ -1802,6 +1802,45 @@ impl Typer {
         }
     }
 
+    /// Type-check the arguments of a call once: against the callee's parameter types
+    /// when they are known and the arity matches, by inference otherwise.
+    fn check_call_args(
+        &mut self,
+        genv: &PackageTypeEnv,
+        local_env: &mut LocalTypeEnv,
+        diagnostics: &mut Diagnostics,
+        args: &[hir::ExprId],
+        callee_ty: Option<&tast::Ty>,
+    ) -> (Vec<tast::Expr>, Vec<tast::Ty>) {
+        let mut args_tast = Vec::with_capacity(args.len());
+        let mut arg_types = Vec::with_capacity(args.len());
+        let expected = match callee_ty {
+            Some(tast::Ty::TFunc { params, .. })
+                if params.len() == args.len() && !params.is_empty() =>
+            {
+                Some(params.clone())
+            }
+            _ => None,
+        };
+        match &expected {
+            Some(params) => {
+                for (arg, expected_ty) in args.iter().zip(params.iter()) {
+                    let arg_tast = self.check_expr(genv, local_env, diagnostics, *arg, expected_ty);
+                    arg_types.push(arg_tast.get_ty());
+                    args_tast.push(arg_tast);
+                }
+            }
+            None => {
+                for arg in args.iter() {
+                    let arg_tast = self.infer_expr(genv, local_env, diagnostics, *arg);
+                    arg_types.push(arg_tast.get_ty());
+                    args_tast.push(arg_tast);
+                }
+            }
+        }
+        (args_tast, arg_types)
+    }
+
     fn infer_call_expr(
         &mut self,
         genv: &PackageTypeEnv,
@@ -1878,29 +1917,11 @@ impl Typer {
                 ..
             } => {
                 let name = &hint;
-                let mut args_tast = Vec::new();
-                let mut arg_types = Vec::new();
-                for arg in args.iter() {
-                    let arg_tast = self.infer_expr(genv, local_env, diagnostics, *arg);
-                    arg_types.push(arg_tast.get_ty());
-                    args_tast.push(arg_tast);
-                }
-                if let Some(func_ty) = lookup_function_type_by_hint(genv, name.as_str()) {
-                    let inst_ty = self.inst_ty(&func_ty);
-                    if let tast::Ty::TFunc { params, .. } = &inst_ty
-                        && params.len() == args.len()
-                        && !params.is_empty()
-                    {
-                        args_tast.clear();
-                        arg_types.clear();
-                        for (arg, expected_ty) in args.iter().zip(params.iter()) {
-                            let arg_tast =
-                                self.check_expr(genv, local_env, diagnostics, *arg, expected_ty);
-                            arg_types.push(arg_tast.get_ty());
-                            args_tast.push(arg_tast);
-                        }
-                    }
-
+                let inst_ty = lookup_function_type_by_hint(genv, name.as_str())
+                    .map(|func_ty| self.inst_ty(&func_ty));
+                let (args_tast, arg_types) =
+                    self.check_call_args(genv, local_env, diagnostics, args, inst_ty.as_ref());
+                if let Some(inst_ty) = inst_ty {
                     let ret_ty = if name.as_str() == "ref" && args_tast.len() == 1 {
                         let elem_ty =
                             args_tast
@@ -1973,28 +1994,9 @@ impl Typer {
                     && let Some(name) = path.last_ident()
                     && let Some(func_ty) = genv.current().get_type_of_function(name.as_str())
                 {
-                    let mut args_tast = Vec::new();
-                    let mut arg_types = Vec::new();
-                    for arg in args.iter() {
-                        let arg_tast = self.infer_expr(genv, local_env, diagnostics, *arg);
-                        arg_types.push(arg_tast.get_ty());
-                        args_tast.push(arg_tast);
-                    }
-
                     let inst_ty = self.inst_ty(&func_ty);
-                    if let tast::Ty::TFunc { params, .. } = &inst_ty
-                        && params.len() == args.len()
-                        && !params.is_empty()
-                    {
-                        args_tast.clear();
-                        arg_types.clear();
-                        for (arg, expected_ty) in args.iter().zip(params.iter()) {
-                            let arg_tast =
-                                self.check_expr(genv, local_env, diagnostics, *arg, expected_ty);
-                            arg_types.push(arg_tast.get_ty());
-                            args_tast.push(arg_tast);
-                        }
-                    }
+                    let (args_tast, arg_types) =
+                        self.check_call_args(genv, local_env, diagnostics, args, Some(&inst_ty));
 
                     let ret_ty = if name.as_str() == "ref" && args_tast.len() == 1 {
                         let elem_ty =
